@@ -215,6 +215,17 @@ Theorem C13_answer_independent_of_history I MC (h t : list call) (c : call) :
 Proof. exact (run_session_history I MC h c t). Qed.
 Print Assumptions C13_answer_independent_of_history.
 
+(** ... and at any time of the life of the process: a call made before main (while the namespace-scope objects of a translation unit linked
+    in front of the library are initialised) after the calls [h], a call made from main after [pre] calls made before main and [h] from
+    main, and the only call of a process have the same answer, [run_call] of the call's own arguments. *)
+Theorem C13_answer_independent_of_initialisation_phase I MC (pre h t : list call) (c : call) :
+  List.Forall (fun c' => run_call ROps I MC c' <> Exit) pre -> List.Forall (fun c' => run_call ROps I MC c' <> Exit) h ->
+  nth (List.length pre + List.length h) (run_process ROps I MC pre (h ++ c :: t)%list) Exit = run_call ROps I MC c /\
+  nth (List.length h) (run_process ROps I MC (h ++ c :: t)%list pre) Exit = run_call ROps I MC c /\
+  run_process ROps I MC [c] [] = [run_call ROps I MC c].
+Proof. exact (run_process_phase I MC pre h t c). Qed.
+Print Assumptions C13_answer_independent_of_initialisation_phase.
+
 (** every call of such a history is answered *)
 Theorem C13_history_all_answered I MC (cs : list call) :
   List.Forall (fun c' => run_call ROps I MC c' <> Exit) cs -> List.length (run_session ROps I MC cs) = List.length cs.
